@@ -150,6 +150,37 @@ def step (s : St) (ws : List String) : St × List String :=
             | none => panic s
           | none => panic s
         | _ => (s, ["bad-op"])
+  | ["feed_read", count, attempts, src, script] =>
+    -- `encode_read` / `decode_read` with a scripted (possibly faulty) reader
+    match count.toNat?, attempts.toNat?, parseHex src, ReadNFam.parseScript script, w.iov 0 with
+    | some c, some att, some src, some sc, some v =>
+      let (w1, ar', res, o) := w.readN v.arena ⟨src, sc⟩ c att
+      let w2 := match w1.iov 0 with
+        | some v1 => w1.setIov 0 (some { v1 with arena := ar' })
+        | none => w1
+      match res with
+      | .error k => fin s w2 s.codec ["R ioerr " ++ toString k ++ " reqs=" ++ natList o.reqs]
+      | .ok a =>
+        let bytes := w2.sliceBytes a.slice
+        let pushA (w : World) : Option World := if a.slice.len = 0 then some w else w.pushAnchor 0 a.anchor
+        match s.codec with
+        | .enc p e =>
+          match encFeed p (2 * bytes.length + 2) w2 0 e .borrow a.slice bytes 0 with
+          | some (w3, e') => match pushA w3 with
+            | some w4 => fin s w4 (.enc p e') ["R ok " ++ toString bytes.length ++ " reqs=" ++ natList o.reqs]
+            | none => panic s
+          | none => panic s
+        | .dec p st =>
+          match decFeed p .borrow (bytes.length + 1) w2 0 st a.slice bytes 0 with
+          | some (w3, .ok st') => match pushA w3 with
+            | some w4 => fin s w4 (.dec p st') ["R ok " ++ toString bytes.length ++ " reqs=" ++ natList o.reqs]
+            | none => panic s
+          | some (w3, .error e) => match pushA w3 with
+            | some w4 => fin s w4 .failed ["R err " ++ errName e ++ " reqs=" ++ natList o.reqs]
+            | none => panic s
+          | none => panic s
+        | _ => (s, ["bad-op"])
+    | _, _, _, _, _ => (s, ["bad-op"])
   | ["drain_all"] =>
     match w.consume 0 1000000000 with
     | some (w', n) => fin s w' s.codec ["R " ++ toString n]
